@@ -20,6 +20,10 @@ R06e no run, no run state: explored *with* hardware/interpreter faults (exact sc
 thorough tier additionally explores with hardware/interpreter faults (set_error_state) and all ghost
 variables and records Inv-breaking fault states as observations (outside the property's quantifier).
 Assumes the command scheduling read off CommandManager (newest request first, one step per tick).
+R06f a run is started only when none is active (siblings): every call of `set_run_id()` in the internal commands - the places that begin
+     a run: Start, and the last segment of Restart - is dominated by the false outcome of a test of `_runstate_started`. The tick
+     between Restart's second and third segment is a Stopped tick in which a user Start is valid; an unguarded third segment starts
+     a second run on top of it and takes its run id away without ending it (3 on_start against 1 on_stop).
 """
 from __future__ import annotations
 
@@ -64,6 +68,7 @@ def spec_accept(d, name: str) -> bool:
 
 
 def run(ctx) -> None:
+    _r06f(ctx)
     prog = ctx.prog
     for r, dsc in [("R06a", "state invariant at every tick boundary"), ("R06b", "gating table"),
                    ("R06c", "run id minted from uuid4; control-state message fields")]:
@@ -225,3 +230,33 @@ def audit(ctx):
             "observations_outside_quantifier": list(obs.values())[:12],
             "note": "states that break the invariant only after set_error_state (err=True) are outside the property's "
                     "quantifier (control commands only) and are recorded, not reported"}
+
+
+
+def _r06f(ctx) -> None:
+    import ast as _ast
+    from ..util import cfg_of as _cfg, call_attr as _ca
+    from ..model import norm as _norm
+    prog = ctx.prog
+    ctx.rule("R06f", "every run start is guarded by `not _runstate_started`")
+    impl = prog.module("openpectus.engine.internal_commands_impl")
+    n = 0
+    for cls in impl.classes.values():
+        f = cls.methods.get("_run")
+        if f is None:
+            continue
+        g = _cfg(f)
+        for nd in g.nodes:
+            if not any(_ca(c) == "set_run_id" for c in nd.calls()):
+                continue
+            n += 1
+            ctx.analysed(f)
+            inst = f"{cls.name}._run: set_run_id() only when no run is active"
+            ok = any(_norm(t).endswith("._runstate_started") and not pol for t, pol in g.conditions_at(nd))
+            if ok:
+                ctx.ok("R06f", inst)
+            else:
+                ctx.fail("R06f", f, nd.ast, inst, "a run is started without asking whether one is active: a user Start accepted in the Stopped tick "
+                         "of a restart has begun a run, this segment begins another in the same tick - the first run is never ended and "
+                         "its run id is overwritten, not cleared")
+    ctx.floor("R06f", 2)
